@@ -31,14 +31,22 @@ structure Keeps (m : Mem) (vb : Slice) (m' : Mem) (vb' : Slice) : Prop where
   /-- buffers are never freed; the current value buffer exists -/
   lengths : m.length ≤ m'.length
   bid : vb.bid < m.length → vb'.bid < m'.length
+  /-- the value buffer stays where it is or moves to a buffer allocated later -/
+  fresh : vb'.bid = vb.bid ∨ m.length ≤ vb'.bid
 
 theorem Keeps.refl (m : Mem) (vb : Slice) : Keeps m vb m vb :=
-  ⟨fun _ h1 h2 => ⟨rfl, h1, h2⟩, fun _ => Nat.le_refl _, Nat.le_refl _, fun h => h⟩
+  ⟨fun _ h1 h2 => ⟨rfl, h1, h2⟩, fun _ => Nat.le_refl _, Nat.le_refl _, fun h => h, Or.inl rfl⟩
 
 theorem Keeps.trans {m m1 m2 : Mem} {vb vb1 vb2 : Slice} (h1 : Keeps m vb m1 vb1) (h2 : Keeps m1 vb1 m2 vb2) :
     Keeps m vb m2 vb2 := by
   refine ⟨?_, fun b => Nat.le_trans (h1.sizes b) (h2.sizes b), Nat.le_trans h1.lengths h2.lengths,
-    fun h => h2.bid (h1.bid h)⟩
+    fun h => h2.bid (h1.bid h), ?_⟩
+  rotate_left
+  · rcases h2.fresh with a | a
+    · rcases h1.fresh with b | b
+      · exact Or.inl (by rw [a, b])
+      · exact Or.inr (by rw [a]; exact b)
+    · exact Or.inr (Nat.le_trans h1.lengths a)
   intro v hi hb
   obtain ⟨a1, a2, a3⟩ := h1.views v hi hb
   obtain ⟨b1, b2, b3⟩ := h2.views v a2 a3
@@ -47,7 +55,7 @@ theorem Keeps.trans {m m1 m2 : Mem} {vb vb1 vb2 : Slice} (h1 : Keeps m vb m1 vb1
 theorem keeps_of_post {m m' : Mem} {buf : Slice} {o' : Options View} {used : Nat} (h : Post m buf m' o' used) :
     Keeps m buf m' (adv buf used) := by
   refine ⟨?_, fun b => by rw [h.size]; exact Nat.le_refl _, by rw [h.length]; exact Nat.le_refl _,
-    fun hb => by rw [h.length]; exact hb⟩
+    fun hb => by rw [h.length]; exact hb, Or.inl rfl⟩
   intro v hi hb
   refine ⟨h.stable v hb, ?_, below_mono hb (by simp [adv])⟩
   unfold InB at *; rw [h.size]; exact hi
@@ -71,7 +79,7 @@ theorem appendZeros_spec (gb : Nat → Nat → Nat) {m : Mem} {s : Slice} (hs : 
     · show s.off + (s.len + n) ≤ _
       rw [size_write hin]; exact hcap
     · refine ⟨?_, fun b => by rw [size_write hin]; exact Nat.le_refl _, by rw [length_write]; exact Nat.le_refl _,
-        fun hb => by rw [length_write]; exact hb⟩
+        fun hb => by rw [length_write]; exact hb, Or.inl rfl⟩
       intro v hi hb
       refine ⟨?_, ?_, hb⟩
       · by_cases c0 : v.len = 0
@@ -86,7 +94,7 @@ theorem appendZeros_spec (gb : Nat → Nat → Nat) {m : Mem} {s : Slice} (hs : 
       rw [size_append_new]
       simp only [List.length_append, hrl, List.length_replicate]
       omega
-    · refine ⟨?_, ?_, by simp, fun _ => by simp⟩
+    · refine ⟨?_, ?_, by simp, fun _ => by simp, Or.inr (Nat.le_refl _)⟩
       · intro v hi hb
         by_cases c0 : v.len = 0
         · exact ⟨by rw [read_zero_len _ _ c0, read_zero_len _ _ c0], Or.inl c0, Or.inl c0⟩
@@ -611,7 +619,7 @@ theorem keeps_append {m : Mem} (vb : Slice) (extra : Mem) : Keeps m vb (m ++ ext
     · unfold Mem.size; rw [buf_eq, buf_eq, List.getElem?_append_left hb]; exact Nat.le_refl _
     · have : m.size b = 0 := by unfold Mem.size; rw [buf_eq, List.getElem?_eq_none (by omega)]; rfl
       omega
-  refine ⟨?_, hsz, by simp, fun h => by simp; omega⟩
+  refine ⟨?_, hsz, by simp, fun h => by simp; omega, Or.inl rfl⟩
   intro v hi hb
   by_cases c0 : v.len = 0
   · exact ⟨by rw [read_zero_len _ _ c0, read_zero_len _ _ c0], Or.inl c0, hb⟩
@@ -750,6 +758,116 @@ theorem run_spec (g : Nat → Nat) (gb : Nat → Nat → Nat) : ∀ (ops : List 
       have hop : op ≠ .reset := fun e => hn (by simp [e])
       have hops : Spec.OptionOp.Op.reset ∉ ops := fun e => hn (by simp [e])
       exact (h4 hop).trans (k4 hops)
+
+/-! ### views that are not the message's: untouched by every history, `Reset` included -/
+
+theorem retry_orig (gb : Nat → Nat → Nat) {r r' : Msg} {f : Mem → Options View → Slice → M Res} {e : Option Err}
+    (h : r.retry gb f = .ok (r', e)) : r'.orig = r.orig := by
+  unfold Msg.retry at h
+  simp only [bind, Except.bind, pure, Except.pure] at h
+  repeat' split at h
+  all_goals (cases h <;> rfl)
+
+theorem step_orig (g : Nat → Nat) (gb : Nat → Nat → Nat) {r r' : Msg} (op : Msg.Op) (h : r.step g gb op = .ok r') :
+    r'.orig = r.orig := by
+  have fromRetry : ∀ (x : M (Msg × Option Err)), (∀ r1 e, x = .ok (r1, e) → r1.orig = r.orig) →
+      (do let y ← x; pure y.1 : M Msg) = .ok r' → r'.orig = r.orig := by
+    intro x hx hy
+    cases hxx : x with
+    | error err => rw [hxx] at hy; cases hy
+    | ok y =>
+      rw [hxx] at hy
+      simp only [bind, Except.bind, pure, Except.pure, Except.ok.injEq] at hy
+      rw [← hy]; exact hx y.1 y.2 (by rw [hxx])
+  cases op with
+  | setBytes id v | addBytes id v =>
+    simp only [Msg.step, Msg.putOptionBytes, bind, Except.bind, pure, Except.pure] at h
+    repeat' split at h
+    all_goals (cases h <;> rfl)
+  | setString id v => exact fromRetry _ (fun _ _ hh => retry_orig gb hh) h
+  | addString id v => exact fromRetry _ (fun _ _ hh => retry_orig gb hh) h
+  | setUint32 id v => exact fromRetry _ (fun _ _ hh => retry_orig gb hh) h
+  | addUint32 id v => exact fromRetry _ (fun _ _ hh => retry_orig gb hh) h
+  | addQuery q =>
+    refine fromRetry (r.addQuery g gb q) (fun r1 e hh => ?_) h
+    unfold Msg.addQuery Msg.addOptionString at hh
+    exact retry_orig gb hh
+  | resetSelf idxs => exact fromRetry _ (fun _ _ hh => retry_orig gb hh) h
+  | resetTo inp =>
+    simp only [Msg.step] at h
+    exact fromRetry _ (fun r1 e hh => by have := retry_orig gb hh; exact this) h
+  | setPath p =>
+    refine fromRetry _ (fun r1 e hh => ?_) h
+    unfold Msg.setPath at hh
+    simp only [bind, Except.bind, pure, Except.pure] at hh
+    repeat' split at hh
+    all_goals (cases hh <;> rfl)
+  | remove id =>
+    simp only [Msg.step, Msg.remove, bind, Except.bind, pure, Except.pure] at h
+    split at h
+    · cases h
+    · simp only [Except.ok.injEq] at h; rw [← h]
+  | reset =>
+    simp only [Msg.step, Msg.reset, bind, Except.bind, pure, Except.pure] at h
+    split at h
+    · cases h
+    · simp only [Except.ok.injEq] at h; rw [← h]
+
+/-- A view that does not belong to the message: inside its buffer, in a buffer that is neither the current nor the
+original value buffer of the message (e.g. a value of a clone, or of another message). -/
+def Foreign (r : Msg) (v : View) : Prop :=
+  v.len = 0 ∨ (v.off + v.len ≤ r.mem.size v.bid ∧ v.bid ≠ r.vb.bid ∧ v.bid ≠ r.orig.bid)
+
+theorem foreign_step (g : Nat → Nat) (gb : Nat → Nat → Nat) {r r' : Msg} (hinv : MsgInv r) (op : Msg.Op)
+    (h : r.step g gb op = .ok r') {v : View} (hf : Foreign r v) :
+    r'.mem.read v = r.mem.read v ∧ Foreign r' v := by
+  by_cases c0 : v.len = 0
+  · exact ⟨by rw [read_zero_len _ _ c0, read_zero_len _ _ c0], Or.inl c0⟩
+  · have ⟨h1, h2, h3⟩ : v.off + v.len ≤ r.mem.size v.bid ∧ v.bid ≠ r.vb.bid ∧ v.bid ≠ r.orig.bid := by
+      rcases hf with hf | hf
+      · exact absurd hf c0
+      · exact hf
+    have horig := step_orig g gb op h
+    have hlt : v.bid < r.mem.length := size_pos_lt (by omega)
+    by_cases hop : op = .reset
+    · subst hop
+      obtain ⟨r'', k1, _, _, k4⟩ := msg_reset_spec hinv
+      have h' : r.reset = .ok r' := h
+      rw [h'] at k1; injection k1 with k1; subst k1
+      have hm : r'.mem = r.mem := by
+        simp only [Msg.step, Msg.reset, bind, Except.bind, pure, Except.pure] at h
+        split at h
+        · cases h
+        · simp only [Except.ok.injEq] at h; rw [← h]
+      refine ⟨by rw [hm], Or.inr ⟨by rw [hm]; exact h1, by rw [k4]; exact h3, by rw [horig]; exact h3⟩⟩
+    · obtain ⟨r'', k1, _, _, k4⟩ := step_spec g gb hinv op
+      rw [h] at k1; injection k1 with k1; subst k1
+      have hk := k4 hop
+      obtain ⟨a1, a2, _⟩ := hk.views v (Or.inr h1) (Or.inr (Or.inl h2))
+      refine ⟨a1, Or.inr ⟨?_, ?_, by rw [horig]; exact h3⟩⟩
+      · rcases a2 with a2 | a2
+        · exact absurd a2 c0
+        · exact a2
+      · rcases hk.fresh with f | f
+        · rw [f]; exact h2
+        · omega
+
+/-- Any history on a message — edits, growth, `Reset` and reuse — leaves every foreign view as it was. -/
+theorem foreign_run (g : Nat → Nat) (gb : Nat → Nat → Nat) : ∀ (ops : List Msg.Op) {r r' : Msg}, MsgInv r →
+    Msg.run g gb r ops = .ok r' → ∀ {v : View}, Foreign r v → r'.mem.read v = r.mem.read v ∧ Foreign r' v := by
+  intro ops
+  induction ops with
+  | nil =>
+    intro r r' _ h v hf
+    simp only [Msg.run, pure, Except.pure, Except.ok.injEq] at h
+    subst h; exact ⟨rfl, hf⟩
+  | cons op ops ih =>
+    intro r r' hinv h v hf
+    obtain ⟨r1, s1, s2, _, _⟩ := step_spec g gb hinv op
+    simp only [Msg.run, bind, Except.bind, s1] at h
+    obtain ⟨a1, a2⟩ := foreign_step g gb hinv op s1 hf
+    obtain ⟨b1, b2⟩ := ih s2 h a2
+    exact ⟨by rw [b1, a1], b2⟩
 
 /-- A freshly created message satisfies the invariant. -/
 theorem msgInv_new (m : Mem) (optCap : Nat) : MsgInv (Msg.new m optCap) := by
@@ -950,7 +1068,7 @@ theorem clone_spec (g : Nat → Nat) {m : Mem} {o : Options View} (hwf : WF o) (
     (hin : ∀ x ∈ o.toList, InB m x.2) :
     ∃ m' c, Options.clone g m o = .ok (m', c, none) ∧ WF c ∧ Sorted c.toList ∧ items m' c = items m o ∧
       (∀ v, InB m v → m'.read v = m.read v ∧ InB m' v) ∧
-      (∀ x ∈ c.toList, InB m' x.2 ∧ m.length ≤ x.2.bid) := by
+      (∀ x ∈ c.toList, InB m' x.2 ∧ m.length ≤ x.2.bid) ∧ m.length ≤ m'.length := by
   have hC := contract_reset g o.toList
   unfold Options.clone
   simp only [Mem.alloc]
@@ -976,16 +1094,16 @@ theorem clone_spec (g : Nat → Nat) {m : Mem} {o : Options View} (hwf : WF o) (
     have := hk.views v hi (Or.inr (Or.inl (by simp)))
     exact ⟨this.1, this.2.1⟩
   -- the result of a successful `ResetOptionsTo` into a fresh buffer `buf` of a heap `mm` that extends `m`
-  have finish : ∀ (mm : Mem) (buf : Slice) (res : Res), m.length ≤ buf.bid →
+  have finish : ∀ (mm : Mem) (buf : Slice) (res : Res), m.length ≤ buf.bid → m.length ≤ mm.length →
       (∀ v, InB m v → mm.read v = m.read v ∧ InB mm v) →
       Options.resetOptionsTo g mm (Options.make o.len) buf o.toList = .ok res → res.err = none →
       Post mm buf res.mem res.opts (Options.totalLen o.toList) →
       items res.mem res.opts = resetTo (o.toList.map (fun x => (x.1, mm.read x.2))) →
       WF res.opts ∧ Sorted res.opts.toList ∧ items res.mem res.opts = items m o ∧
         (∀ v, InB m v → res.mem.read v = m.read v ∧ InB res.mem v) ∧
-        (∀ x ∈ res.opts.toList, InB res.mem x.2 ∧ m.length ≤ x.2.bid) := by
-    intro mm buf res hb hmm hcall herr hp hi
-    refine ⟨hp.wf, hp.sorted, ?_, ?_, ?_⟩
+        (∀ x ∈ res.opts.toList, InB res.mem x.2 ∧ m.length ≤ x.2.bid) ∧ m.length ≤ res.mem.length := by
+    intro mm buf res hb hml hmm hcall herr hp hi
+    refine ⟨hp.wf, hp.sorted, ?_, ?_, ?_, by rw [hp.length]; exact hml⟩
     · rw [hi]; exact hspec mm (fun x hx => (hmm x.2 (hin x hx)).1)
     · intro v hv
       obtain ⟨a, b⟩ := hmm v hv
@@ -1062,8 +1180,9 @@ theorem clone_spec (g : Nat → Nat) {m : Mem} {o : Options View} (hwf : WF o) (
       exact (read_append _ _ (Or.inr (by simp [m1]))).symm
     simp only [m1] at hm3
     rw [hm3, k1]
-    obtain ⟨f1, f2, f3, f4, f5⟩ := finish m3 buf2 _ (by show m.length ≤ m1.length; omega) read3 k1 rfl k2 k3
-    exact ⟨m4, c, rfl, f1, f2, f3, f4, f5⟩
+    obtain ⟨f1, f2, f3, f4, f5, f6⟩ := finish m3 buf2 _ (by show m.length ≤ m1.length; omega)
+      (by show m.length ≤ (m2.write m1.length 0 data).length; rw [length_write, e2]; simp) read3 k1 rfl k2 k3
+    exact ⟨m4, c, rfl, f1, f2, f3, f4, f5, f6⟩
   · -- the values fit the 64-byte scratch buffer
     have hext1 : ∀ v ∈ o.toList.map (·.2), InB m1 v ∧ Below buf1.bid buf1.off v := by
       intro v hv
@@ -1077,7 +1196,7 @@ theorem clone_spec (g : Nat → Nat) {m : Mem} {o : Options View} (hwf : WF o) (
       hwf0 hs0 hin1 hl1 hext1
     simp only [m1, buf1] at k1
     simp only [k1, bind, Except.bind, pure, Except.pure]
-    obtain ⟨f1, f2, f3, f4, f5⟩ := finish m1 buf1 _ (Nat.le_refl _) hmm1 k1 rfl k2 k3
-    exact ⟨m4, c, rfl, f1, f2, f3, f4, f5⟩
+    obtain ⟨f1, f2, f3, f4, f5, f6⟩ := finish m1 buf1 _ (Nat.le_refl _) (by simp [m1]) hmm1 k1 rfl k2 k3
+    exact ⟨m4, c, rfl, f1, f2, f3, f4, f5, f6⟩
 
 end CoapVerif.Lemmas.PoolOptionsModel
